@@ -81,16 +81,80 @@ func c11blockingWrappers(c *Ctx, pkg string) map[*ssa.Function]int {
 				if !ok {
 					return
 				}
-				sc := call.Call.StaticCallee()
-				if sc == nil {
-					return
-				}
-				if k, isW := out[unwrap(sc)]; isW && k < len(call.Call.Args) {
-					if p := paramIdx(f, call.Call.Args[k]); p >= 0 {
+				if arg, isW := c11wrapperArg(call, out); isW {
+					if p := paramIdx(f, arg); p >= 0 {
 						out[f] = p
 					}
 				}
 			})
+		}
+	}
+	return out
+}
+
+// c11wrapperArg: the call denotes blocking-query wrappers only (a static call, or a call through an interface or a
+// function value all of whose targets are wrappers) -> the argument that becomes the query's WaitIndex.
+func c11wrapperArg(call *ssa.Call, wrappers map[*ssa.Function]int) (ssa.Value, bool) {
+	fs := c11callees(&call.Call)
+	if len(fs) == 0 {
+		return nil, false
+	}
+	var arg ssa.Value
+	for _, f := range fs {
+		k, isW := wrappers[f]
+		if !isW {
+			return nil, false
+		}
+		if call.Call.IsInvoke() {
+			k-- // the receiver is not among the arguments of an interface call
+		}
+		if k < 0 || k >= len(call.Call.Args) || (arg != nil && arg != call.Call.Args[k]) {
+			return nil, false
+		}
+		arg = call.Call.Args[k]
+	}
+	return arg, arg != nil
+}
+
+// c11waitIndexAdvances is looppace.go's waitIndexAdvances (the WaitIndex argument is a loop-carried variable advanced from the
+// call's own reply) that also understands an index kept in memory — a field of a state struct or of the watcher the loop
+// is a method of: the argument is read inside the loop from a place that the loop body writes with a value derived from
+// the call.
+func c11waitIndexAdvances(call *ssa.Call, arg ssa.Value, l *loop) bool {
+	if waitIndexAdvances(call, arg, l) {
+		return true
+	}
+	u, ok := arg.(*ssa.UnOp)
+	if !ok || u.Op != token.MUL || !l.Body[u.Block()] {
+		return false
+	}
+	if _, isAlloc := u.X.(*ssa.Alloc); !isAlloc {
+		if _, isField := u.X.(*ssa.FieldAddr); !isField {
+			return false
+		}
+	}
+	same := samePath(u.X)
+	found := false
+	for b := range l.Body {
+		for _, in := range b.Instrs {
+			st, isStore := in.(*ssa.Store)
+			if !isStore || !(st.Addr == u.X || same(st.Addr)) {
+				continue
+			}
+			if derives(st.Val, func(v ssa.Value) bool { return v == ssa.Value(call) }) {
+				found = true
+			}
+		}
+	}
+	return found
+}
+
+// c11pacingNames: the library calls that pace a loop (looppace.go's table).
+func c11pacingNames() map[string]bool {
+	out := map[string]bool{}
+	for n, yes := range pacingCalls {
+		if yes {
+			out[n] = true
 		}
 	}
 	return out
@@ -110,15 +174,29 @@ func c11pacing(wrappers map[*ssa.Function]int) func(ssa.Instruction, *loop) bool
 		if consulQueryPaced(i, l) {
 			return true
 		}
+		if arg, isW := c11wrapperArg(call, wrappers); isW {
+			return c11waitIndexAdvances(call, arg, l)
+		}
 		sc := call.Call.StaticCallee()
-		if sc == nil || !isRepoFn(sc) {
+		if sc == nil {
+			// a pacing call kept in a function variable (`var sleep = time.Sleep`, a clock hook for tests)
+			if !call.Call.IsInvoke() && c11callsOnly(&call.Call, c11pacingNames()) {
+				return true
+			}
+			// a callback or an interface method all of whose targets sleep or block on all their paths (`emit(certs)` with
+			// emit = func(c) { ch <- c })
+			fs := c11callees(&call.Call)
+			for _, g := range fs {
+				if !mustExec(g, c11basicPacing, 0) {
+					return false
+				}
+			}
+			return len(fs) > 0
+		}
+		if !isRepoFn(sc) {
 			return false
 		}
-		sc = unwrap(sc)
-		if k, isW := wrappers[sc]; isW {
-			return k < len(call.Call.Args) && waitIndexAdvances(call, call.Call.Args[k], l)
-		}
-		return mustExec(sc, c11basicPacing, 0)
+		return mustExec(unwrap(sc), c11basicPacing, 0)
 	}
 }
 
@@ -142,48 +220,114 @@ func c11pacedByVerdict(b *ssa.BasicBlock, l *loop) bool {
 	return false
 }
 
-// c11pacesBeforeReturn: every path of h from its entry to a return whose result idx can be `truth` sleeps or blocks.
+// c11pacesBeforeReturn: every path of h from its entry to a return whose result idx can be `truth` sleeps or blocks. A
+// constant result decides by itself; a computed verdict (`return err == nil`) can be `truth` only on the paths that took
+// the branches on that same condition the matching way.
 func c11pacesBeforeReturn(h *ssa.Function, idx int, truth bool) bool {
 	if len(h.Blocks) == 0 {
 		return false
 	}
 	paces := liftMust(c11basicPacing, 1)
-	seen := map[*ssa.BasicBlock]bool{h.Blocks[0]: true}
-	stack := []*ssa.BasicBlock{h.Blocks[0]}
 	nRet := 0
-	for len(stack) > 0 {
-		b := stack[len(stack)-1]
-		stack = stack[:len(stack)-1]
-		blocked := false
-		for _, in := range b.Instrs {
-			if paces(in) {
-				blocked = true
+	ok := true
+	eachInstr(h, func(i ssa.Instruction) {
+		r, isRet := i.(*ssa.Return)
+		if !isRet || idx >= len(r.Results) || !ok {
+			return
+		}
+		res := r.Results[idx]
+		if k, isK := constBool(res); isK && k != truth {
+			return
+		}
+		nRet++
+		// the condition the verdict is, and the value it must have for the result to be `truth`
+		cond, want := res, truth
+		for {
+			u, isNot := cond.(*ssa.UnOp)
+			if !isNot || u.Op != token.NOT {
 				break
 			}
-			if r, ok := in.(*ssa.Return); ok && idx < len(r.Results) {
-				if k, isK := constBool(r.Results[idx]); !isK || k == truth {
-					return false // reached without pacing
+			cond, want = u.X, !want
+		}
+		if _, isK := constBool(res); isK {
+			cond = nil
+		}
+		seen := map[*ssa.BasicBlock]bool{h.Blocks[0]: true}
+		stack := []*ssa.BasicBlock{h.Blocks[0]}
+		for len(stack) > 0 && ok {
+			b := stack[len(stack)-1]
+			stack = stack[:len(stack)-1]
+			blocked := false
+			for _, in := range b.Instrs {
+				if paces(in) {
+					blocked = true
+					break
+				}
+				if in == ssa.Instruction(r) {
+					ok = false // reached without pacing
+				}
+			}
+			if blocked || !ok {
+				continue
+			}
+			succs := b.Succs
+			if len(b.Instrs) == 0 {
+				continue
+			}
+			if iff, isIf := b.Instrs[len(b.Instrs)-1].(*ssa.If); isIf && cond != nil && len(b.Succs) == 2 {
+				c2, t2 := iff.Cond, true
+				for {
+					u, isNot := c2.(*ssa.UnOp)
+					if !isNot || u.Op != token.NOT {
+						break
+					}
+					c2, t2 = u.X, !t2
+				}
+				if c11sameCond(c2, cond) { // only the branch on which the verdict is `truth`
+					if want == t2 {
+						succs = b.Succs[:1]
+					} else {
+						succs = b.Succs[1:]
+					}
+				}
+			}
+			for _, sb := range succs {
+				if !seen[sb] {
+					seen[sb] = true
+					stack = append(stack, sb)
 				}
 			}
 		}
-		if blocked {
-			continue
-		}
-		for _, s := range b.Succs {
-			if !seen[s] {
-				seen[s] = true
-				stack = append(stack, s)
-			}
-		}
-	}
-	eachInstr(h, func(i ssa.Instruction) {
-		if r, ok := i.(*ssa.Return); ok && idx < len(r.Results) {
-			if k, isK := constBool(r.Results[idx]); !isK || k == truth {
-				nRet++
-			}
-		}
 	})
-	return nRet > 0
+	return ok && nRet > 0
+}
+
+// c11sameCond: two conditions are the same test: the same value, or the same comparison of the same operands evaluated
+// twice (`if err == nil {...}; return err == nil`).
+func c11sameCond(a, b ssa.Value) bool {
+	if a == b {
+		return true
+	}
+	x, ok1 := a.(*ssa.BinOp)
+	y, ok2 := b.(*ssa.BinOp)
+	if !ok1 || !ok2 || x.Op != y.Op {
+		return false
+	}
+	same := func(p, q ssa.Value) bool {
+		if p == q {
+			return true
+		}
+		kp, isKp := p.(*ssa.Const)
+		kq, isKq := q.(*ssa.Const)
+		if isKp && isKq {
+			if kp.Value == nil || kq.Value == nil {
+				return kp.Value == nil && kq.Value == nil
+			}
+			return kp.Value.ExactString() == kq.Value.ExactString()
+		}
+		return false
+	}
+	return same(x.X, y.X) && same(x.Y, y.Y)
 }
 
 // c11errEdgeSpins examines the error edge of a Consul query: the blocks of `in` (a loop body, or a whole wrapper function
@@ -211,10 +355,8 @@ func c11errEdgeSpins(call *ssa.Call, l *loop, wrappers map[*ssa.Function]int, sl
 				return
 			}
 			isQ := c11isConsulQuery(calleeName(&inner.Call))
-			if g := c11callee(&inner.Call); g != nil {
-				if _, isW := wrappers[g]; isW {
-					isQ = true
-				}
+			if _, isW := c11wrapperArg(inner, wrappers); isW {
+				isQ = true
 			}
 			if isQ {
 				n, sp := c11errEdgeSpins(inner, nil, wrappers, sleeps, depth+1)
@@ -284,7 +426,7 @@ func runC11L1(c *Ctx) {
 
 	// W3 for the Consul watcher, queries found by role (looppace.go's runConsulWatchLoops names cert.getCerts)
 	sleeps := func(in ssa.Instruction) bool {
-		if cc := callCommon(in); cc != nil && calleeName(cc) == "time.Sleep" {
+		if cc := callCommon(in); cc != nil && c11callsOnly(cc, map[string]bool{"time.Sleep": true}) {
 			return true
 		}
 		if u, ok := in.(*ssa.UnOp); ok && u.Op == token.ARROW {
@@ -314,10 +456,8 @@ func runC11L1(c *Ctx) {
 					}
 					blocks, isQ := false, false
 					name := calleeName(&call.Call)
-					if sc := call.Call.StaticCallee(); sc != nil {
-						if k, isW := wrappers[unwrap(sc)]; isW && k < len(call.Call.Args) {
-							isQ, blocks = true, waitIndexAdvances(call, call.Call.Args[k], l)
-						}
+					if arg, isW := c11wrapperArg(call, wrappers); isW {
+						isQ, blocks = true, c11waitIndexAdvances(call, arg, l)
 					}
 					if !isQ && c11isConsulQuery(name) {
 						isQ, blocks = true, consulQueryPaced(call, l)
@@ -462,6 +602,12 @@ func (w *c11sendWalk) walk(v ssa.Value, chain []*ssa.BasicBlock, depth int) {
 					w.walk(cc.Args[k], with(s.Block()), depth+1)
 				}
 			}
+			// the function is handed out as a callback or sits behind an interface (`emit(certs)`, `out.send(certs)`)
+			for _, d := range c11dynSites(fn) {
+				if cc := d.site.Common(); k-d.off >= 0 && k-d.off < len(cc.Args) && d.site.Block() != nil {
+					w.walk(cc.Args[k-d.off], with(d.site.Block()), depth+1)
+				}
+			}
 		}
 	}
 }
@@ -482,6 +628,18 @@ func (w *c11sendWalk) call(call *ssa.Call, idx int, chain []*ssa.BasicBlock, dep
 			}
 		}
 	}
+	// a verdict the caller tested: result k of this call is known true/false on the value's way
+	verdict := map[int]bool{}
+	for _, b := range chain {
+		if b == nil {
+			continue
+		}
+		for _, f := range factsAt(b) {
+			if e, isE := f.Cond.(*ssa.Extract); isE && e.Tuple == ssa.Value(call) {
+				verdict[e.Index] = f.Truth
+			}
+		}
+	}
 	// what the callee returns: loaders below it must be guarded there, or hand their error up to a guarded caller
 	found := 0
 	eachInstr(sc, func(i ssa.Instruction) {
@@ -494,9 +652,12 @@ func (w *c11sendWalk) call(call *ssa.Call, idx int, chain []*ssa.BasicBlock, dep
 		found += len(sub.guarded) + len(sub.unguarded)
 		w.guarded = append(w.guarded, sub.guarded...)
 		for _, u := range sub.unguarded {
-			if outer && derives(r.Results[len(r.Results)-1], c11errOf(u)) {
+			switch {
+			case outer && derives(r.Results[len(r.Results)-1], c11errOf(u)):
 				w.guarded = append(w.guarded, u) // its error is this function's error, which the caller tested
-			} else {
+			case c11verdictImpliesNil(r, verdict, c11errOf(u)):
+				w.guarded = append(w.guarded, u) // `return certs, err == nil` and the caller went on only with true
+			default:
 				w.unguarded = append(w.unguarded, u)
 			}
 		}
@@ -508,6 +669,28 @@ func (w *c11sendWalk) call(call *ssa.Call, idx int, chain []*ssa.BasicBlock, dep
 			w.unguarded = append(w.unguarded, call) // the innermost fallible loader, and nobody looked at its error
 		}
 	}
+}
+
+// c11verdictImpliesNil: one of the boolean results of return r is a nil test of the loader's error (`err == nil`,
+// `!(err != nil)`), and the caller is known to have seen the value that means "the error is nil".
+func c11verdictImpliesNil(r *ssa.Return, verdict map[int]bool, isErr func(ssa.Value) bool) bool {
+	for k, truth := range verdict {
+		if k >= len(r.Results) {
+			continue
+		}
+		cond := r.Results[k]
+		for {
+			u, isNot := cond.(*ssa.UnOp)
+			if !isNot || u.Op != token.NOT {
+				break
+			}
+			cond, truth = u.X, !truth
+		}
+		if nonNil, ok := nilFact(Fact{Cond: cond, Truth: truth}, isErr); ok && !nonNil {
+			return true
+		}
+	}
+	return false
 }
 
 func runC11L2(c *Ctx) {
@@ -660,8 +843,22 @@ func runC11L4(c *Ctx, m *c11Model) {
 	if !c.need("C11.L4", tlsConfig, "cert.TLSConfig") {
 		return
 	}
-	reg := c.region(tlsConfig)
-	isApply := liftMay(m.isPublishTry)
+	reg := c11region(c, tlsConfig)
+	narrow := c11liftMay(m.isPublishTry)
+	isApply := func(i ssa.Instruction) bool {
+		if narrow(i) {
+			return true
+		}
+		// a sink behind an exported interface of the package (`type CertSink interface{ SetCertificates(...) }`)
+		if call, ok := i.(*ssa.Call); ok && call.Call.IsInvoke() {
+			for _, g := range c11implementationsOf(&call.Call, true) {
+				if c11mayExec(g, m.isPublishTry, 1) {
+					return true
+				}
+			}
+		}
+		return false
+	}
 	isCertsChan := func(v ssa.Value) bool {
 		call, ok := v.(*ssa.Call)
 		return ok && call.Call.IsInvoke() && call.Call.Method.Name() == "Certificates"
@@ -701,7 +898,7 @@ func runC11L4(c *Ctx, m *c11Model) {
 			for _, f := range factsAt(i.Block()) {
 				base[f] = true
 			}
-			eachInstrOf(c.region(g), func(h *ssa.Function, j ssa.Instruction) {
+			eachInstrOf(c11region(c, g), func(h *ssa.Function, j ssa.Instruction) {
 				call, ok := j.(*ssa.Call)
 				if !ok || !isApply(j) {
 					return
@@ -745,7 +942,7 @@ func runC11L4(c *Ctx, m *c11Model) {
 	}
 	// started as a goroutine on every path to the successful return
 	runsUpdater := func(f *ssa.Function) bool {
-		for _, g := range c.region(f) {
+		for _, g := range c11region(c, f) {
 			for _, u := range ups {
 				if u.fn == g {
 					return true
